@@ -1106,6 +1106,16 @@ class ContentElement(TTMLElement):
       (model_element.parent() is not None and model_element.parent().get_space() != model_element.get_space()):
       imsc_attr.XMLSpaceAttribute.set(xml_element, model_element.get_space())
 
+    # xml:lang is written where it differs from the language of the parent; an empty language on a root element means
+    # that the language of the document applies
+
+    if model_element.parent() is not None:
+      if model_element.get_lang() != model_element.parent().get_lang() and not isinstance(model_element, model.Text):
+        imsc_attr.XMLLangAttribute.set(xml_element, model_element.get_lang())
+    elif model_element.get_lang() != "" and model_element.get_doc() is not None and \
+      model_element.get_lang() != model_element.get_doc().get_lang():
+      imsc_attr.XMLLangAttribute.set(xml_element, model_element.get_lang())
+
     if imsc_class.has_region:
       if model_element.get_region() is not None:
         imsc_attr.RegionAttribute.set(xml_element, model_element.get_region().get_id())
